@@ -16,7 +16,9 @@ Bases == << [name |-> "northup", A |-> <<10, 0, 100, 0, -10, 200>>, carrier |-> 
             [name |-> "gcp_subpixel", A |-> <<6, -8, 100, 8, 6, 200>>, carrier |-> "gcp"] >>
 Containers == << [container |-> "DataArray", backend |-> "numpy", dims |-> "yx"], [container |-> "DataArray", backend |-> "dask", dims |-> "tyx"],
                  [container |-> "Dataset", backend |-> "numpy", dims |-> "yx"], [container |-> "DataArray", backend |-> "numpy", dims |-> "yxb"],
-                 [container |-> "Dataset", backend |-> "dask", dims |-> "tyx"] >>
+                 [container |-> "Dataset", backend |-> "dask", dims |-> "tyx"],
+                 \* a single time step (a non-spatial dimension of length 1)
+                 [container |-> "DataArray", backend |-> "numpy", dims |-> "t1yx"] >>
 Code(h) == IF h = <<>> THEN 0 ELSE LET e == h[Len(h)] IN Len(h) * 7 + (IF e[1] = "isel_y" THEN 1 ELSE IF e[1] = "isel_x" THEN 2 ELSE 3) + (CHOOSE k \in 1..9 : \/ e[2] = "" \/ e[2] = <<"head", "tail", "mid", "stride2", "rev", "revstride", "one", "last", "neg3">>[k])
 MCNext == /\ Next
           /\ \A b \in DOMAIN Bases : Emit([shape |-> shape0, hist |-> hist', sx |-> sx', sy |-> sy', base |-> Bases[b],
